@@ -572,6 +572,15 @@ def c05_shapes(depth):
 
     def gen(d):
         """yield (name, fn(ctx)->stmts, always_returns?)"""
+        if d >= 1:
+            # while-true loops whose only exits are inside if/else arms that all terminate (break or return)
+            arms = {'brk': lambda c: [Break()], 'ret': lambda c: [c.ret()], 'nopbrk': lambda c: [c.nop(), Break()]}
+            for an, af in arms.items():
+                for bn, bf in arms.items():
+                    yield ('wt_ifelse(%s,%s)' % (an, bn), lambda c, af=af, bf=bf: [While(Lit(True, BOOL), [If(c.cond(), af(c), bf(c))])])
+            yield ('wt_elif(brk,ret,brk)', lambda c: [While(Lit(True, BOOL), [If(c.cond(), [Break()], If(c.cond(), [c.ret()], [Break()]))])])
+            yield ('wt_elif(ret,brk,ret)', lambda c: [While(Lit(True, BOOL), [If(c.cond(), [c.ret()], If(c.cond(), [Break()], [c.ret()]))])])
+            yield ('wt_nested(brk)', lambda c: [While(Lit(True, BOOL), [If(c.cond(), [If(c.cond(), [Break()], [c.ret()])], [c.ret()])])])
         yield ('ret', lambda c: [c.ret()])
         yield ('nop', lambda c: [c.nop()])
         if d == 0:
